@@ -115,7 +115,7 @@ func ruleNegotiationSymmetry(c *Ctx, rule string) {
 			if !w.isRoleCall(call2, ctor) {
 				return
 			}
-			for _, a := range call2.Call.Args {
+			for _, a := range flatArgs(call2) {
 				if via == nil && (isFlag(a) || isFlag(origin(a))) {
 					okFlow = true
 				}
